@@ -47,11 +47,6 @@ FINDINGS = {
                                 "formula": "(lambda: [x for x in [[]] if not x.append(x)][0])()"}], ops=["hostile_formula"]),
     {"k": "restart", "mode": "reported"}]},
   # C05 ------------------------------------------------------------------------------------------
-  "F-r.c05": {"profile": "c05", "cfg": {"check_every": 1}, "events": [
-    OPEN, B(["AddTable", "T1", [col("c2", "Int")]], ["AddRecord", "T1", None, {"c2": 1}]),
-    B(["AddColumn", "T1", "f8", {"type": "Any", "isFormula": True, "formula": "$c2.nosuch"}]),
-    B(["ModifyColumn", "T1", "f8", {"isFormula": False}]),
-    B(["AddColumn", "T1", "f10", {"type": "Any", "isFormula": True, "formula": "UPPER(str($f8))"}])]},
   "F-c.c05": {"profile": "c05", "cfg": {"check_every": 1}, "events": [
     OPEN, B(["AddTable", "T1", [col("a", "Int"), col("s", "Int")]],
             ["BulkAddRecord", "T1", [None] * 3, {"a": [1, 1, 2], "s": [3, 2, 1]}]),
